@@ -48,6 +48,33 @@ DATE_MAIN = ("D[{{ x | date: '%Y' }}|{{ ts | date: '%Y-%m-%d %H' }}|{{ 'now' | d
              "{{ s | date: '%Y' }}|{{ y | date: '%s' }}]")
 
 
+def _filter_mains():
+    """Three fixed templates that apply every registered filter once to a typical input: with the
+    equal-but-differently-typed twins of the data (1 / 1.0 / True, str / Markup, equal instants in
+    other zones) any filter that memoises on (value, argument) shows up as history dependence."""
+    dflt = {"s": "'a'", "n": "2", "key": "'title'", "arr": "items", "fmt": "'%Y'", "any": "x", "allow_false": None}
+    groups = {"str": [], "num": [], "arr": []}
+    for name in sorted(G.FILTERS):
+        kinds = [k for k in G.FILTERS[name] if not k.startswith("?")]
+        args = [dflt[k] for k in kinds if dflt.get(k)]
+        hint = G.FILTER_INPUT_HINT.get(name)
+        if hint is G.NUMBER_IN or name in ("abs", "ceil", "floor", "round", "plus", "minus", "times", "modulo",
+                                           "divided_by", "at_least", "at_most"):
+            grp, inp = "num", "x"
+        elif hint is G.ARRAY_IN or name in ("map", "where", "find", "find_index", "has", "reject", "compact", "uniq",
+                                            "sum", "sort", "sort_natural", "concat", "join", "first", "last", "reverse"):
+            grp, inp = "arr", ("objs" if "key" in kinds else "words")
+        else:
+            grp, inp = "str", "t"
+        inp = {"sum": "items", "base64_decode": "t | base64_encode",
+               "base64_url_safe_decode": "t | base64_url_safe_encode"}.get(name, inp)
+        groups[grp].append("{{ %s | %s%s }}" % (inp, name, (": " + ", ".join(args)) if args else ""))
+    return ["F%s[%s]" % (g, "|".join(v)) for g, v in sorted(groups.items())]
+
+
+FILTER_MAINS = _filter_mains()
+
+
 class CachingSimLoader(CachingLoaderMixin, StaticSimLoader):
     def __init__(self, store, loop_ref, style, *, namespace_key, capacity, auto_reload):
         super().__init__(auto_reload=auto_reload, namespace_key=namespace_key, capacity=capacity)
@@ -308,6 +335,8 @@ class C17:
                 mains.append(tg.template())
             if rng.chance(0.6):
                 mains.append(DATE_MAIN)
+            if rng.chance(0.5):
+                mains.append(rng.choice(FILTER_MAINS))
             envs.append({"recipe": recipe, "loader": rng.choice(["dict", "cdict", "sim", "csim", "choice", "cchoice"]),
                          "ns_key": "", "capacity": rng.choice([1, 2, 300]), "auto_reload": rng.chance(0.7),
                          "templates": templates, "mains": mains})
@@ -377,6 +406,8 @@ class C17:
                 return float(v)
             if isinstance(v, float) and v == int(v):
                 return int(v)
+            if isinstance(v, str) and v and rng.chance(0.5):
+                return {"__markup__": v}       # Markup(v) == v, same hash: trusted vs untrusted text
             if isinstance(v, list):
                 return [tw(x) for x in v]
             if isinstance(v, dict):
